@@ -410,7 +410,7 @@ fn c07(r: &Run, rec: &StepRec) {
     prove_d(
         "C07/under-margined-position-can-be-liquidated",
         pre.not(),
-        format!("liquidate failed [{}] {}", kind, crate::sx::norm(&rec.tx.err)),
+        format!("liquidate failed [{}]{} {}", kind, if r.funding_settled { " [after-funding]" } else { "" }, crate::sx::norm(&rec.tx.err)),
     );
 }
 
